@@ -46,8 +46,8 @@ package schema
 //@ func (Schema).LookUpField
 //@   tags C03 C10
 //@   modifies nothing
-//@   ensures column-name-first: has(schema.FieldsByDBName, name) ==> result == schema.FieldsByDBName[name]
-//@   ensures then-field-name: !has(schema.FieldsByDBName, name) && has(schema.FieldsByName, name) ==> result == schema.FieldsByName[name]
+//@   ensures column-name-first: has(schema.FieldsByDBName, name) ==> schema.FieldsByDBName[name] == result
+//@   ensures then-field-name: !has(schema.FieldsByDBName, name) && has(schema.FieldsByName, name) ==> schema.FieldsByName[name] == result
 //@   ensures unknown-name: !has(schema.FieldsByDBName, name) && !has(schema.FieldsByName, name) ==> result == nil
 //@ site clause-hooks-probed-on-indirect-type
 //@   match invoke CreateClausesInterface.CreateClauses | invoke QueryClausesInterface.QueryClauses | invoke UpdateClausesInterface.UpdateClauses | invoke DeleteClausesInterface.DeleteClauses
